@@ -130,6 +130,21 @@ CHECKS = {
             'Trusted: VC generator, clang, z3/cvc5. Assumed: per-geom ray routines are pure functions of the geom index; ngeom < 2^27; '
             'normal == NULL in mj_ray; quadratic/sphere over the reals. Not covered (listed): the other geom ray routines, mj_multiRay, BVH rays.',
             'contracts + inductive loop invariant with ghost functions, z3 QF_FP/LIA+quantifiers, NRA'),
+    'C31': ('DESIGN.md section 4 / C31',
+            'Deductive proof on the real engine_io.c (all sizes, all buffer contents symbolic): (1) mj_validateReferences returning NULL '
+            'implies every cross-reference of a table written from the mjModel documentation is in bounds (130 clauses), with every read '
+            'the validator itself makes in bounds and no integer overflow - inductive invariants of its 110 loops are generated from '
+            'the loop bodies; (2) mj_loadModelBuffer never reaches bufread\'s internal error, every read lies inside the buffer and '
+            'every write inside the model array it targets (lengths from mjxmacro.h), the preconditions of the validator hold at '
+            'its call, a non-NULL result has all references in bounds; (3) mj_sizeModel equals the documented layout sum and '
+            'mj_saveModel writes gap-free up to exactly that total; (4) mirror: item order, item lengths and slots of save and load '
+            'agree, and every member of mjModel is serialized.',
+            'Trusted: VC generator, clang, z3/cvc5, memcpy as exact byte copy (contents not modelled). Assumed: contract of mj_makeModel '
+            '(body not verified), plugin callbacks effect-free, nonlinear products abstracted by an uninterpreted function (sound). '
+            'Five genuine defects found and repaired (known_findings.json). Not decided: file wrappers, bit-exact array contents beyond '
+            'the byte-copy argument.',
+            'contracts + symbolic VC generation with generated search-loop invariants and sequence cut points; relational lock-step '
+            'obligations over two executions; z3 LIA+arrays+quantifiers'),
 }
 
 NA = {
